@@ -129,6 +129,14 @@ func allProved(obls []*Obl) bool {
 	return true
 }
 
+func loadInline(verif string) map[string]bool {
+	out := map[string]bool{}
+	if data, err := os.ReadFile(filepath.Join(verif, "claims", "inline.json")); err == nil {
+		_ = json.Unmarshal(data, &out)
+	}
+	return out
+}
+
 func hasPost(obls []*Obl) bool {
 	for _, o := range obls {
 		if o.Class == "post" || o.Class == "ipost" {
@@ -217,6 +225,9 @@ func cmdCheck(args []string) {
 	}
 	if !*writeClaims {
 		e.baseLocals = loadBaseLocals(*verif)
+		e.baseInline = loadInline(*verif)
+	} else {
+		e.sizeDecisions = map[string]bool{}
 	}
 	timeout := 10 * time.Second
 	which := solvers
@@ -323,6 +334,94 @@ func cmdCheck(args []string) {
 	for _, n := range unclaimedList {
 		addSpare(n)
 	}
+	// Origin matching: a limitation or finding recorded for function F is the same limitation wherever F's code is
+	// inlined (a caller that starts to inline F after F got smaller, a helper extracted from F). Origins of an
+	// obligation name: the functions of its inline path from the innermost outwards, then the unit itself.
+	shortFn := func(f string) string {
+		if i := strings.Index(f, "["); i > 0 {
+			f = f[:i]
+		}
+		for _, pk := range []string{"schema.", "atp.", "main."} {
+			if strings.HasPrefix(f, pk) {
+				f = f[len(pk):]
+				break
+			}
+		}
+		return f
+	}
+	originKeys := func(n string) []string {
+		hash := strings.Index(n, "#")
+		if hash < 0 {
+			return nil
+		}
+		unit, rest := n[:hash], n[hash+1:]
+		if i := strings.LastIndex(rest, ":"); i > 0 {
+			if _, err := strconv.Atoi(rest[i+1:]); err == nil {
+				rest = rest[:i]
+			}
+		}
+		cd, path := rest, ""
+		if i := strings.Index(rest, "@"); i >= 0 {
+			cd, path = rest[:i], rest[i+1:]
+		}
+		var out []string
+		if path != "" {
+			els := strings.Split(path, ">")
+			for i := len(els) - 1; i >= 0; i-- {
+				out = append(out, shortFn(els[i])+"#"+cd)
+			}
+		}
+		out = append(out, shortFn(unit)+"#"+cd)
+		return out
+	}
+	listedByOrigin := map[string]string{}
+	regOrigin := func(n string) {
+		ks := originKeys(n)
+		if len(ks) > 0 {
+			// a listed name stands for its innermost origin
+			if _, dup := listedByOrigin[ks[0]]; !dup {
+				listedByOrigin[ks[0]] = n
+			}
+		}
+	}
+	for i := range findings {
+		if findings[i].Kind == "finding" && findings[i].Property == *prop {
+			regOrigin(findings[i].Obligation)
+		}
+	}
+	for _, n := range unclaimedList {
+		regOrigin(n)
+	}
+	generated := map[string]bool{}
+	for _, r := range reports {
+		for _, o := range r.obls {
+			generated[o.Name] = true
+		}
+	}
+	originUsed := map[string]string{} // listed name -> the current name it stands for
+	originListed := func(name string) string {
+		if !strings.Contains(name, "@") {
+			return "" // only obligations that come from inlined code are matched by origin
+		}
+		if claims[name] {
+			return "" // an obligation that was proved when the claims were recorded has not moved: it broke
+		}
+		for _, k := range originKeys(name) {
+			if l, ok := listedByOrigin[k]; ok {
+				// the listed obligation must have disappeared under its own name (it moved), and it stands for one
+				// obligation only
+				if generated[l] {
+					continue
+				}
+				if cur, used := originUsed[l]; used && cur != name {
+					continue
+				}
+				originUsed[l] = name
+				return l
+			}
+		}
+		return ""
+	}
 	renumbered := map[string]string{} // current name -> listed name
 	takeListed := func(name string) string {
 		if l, ok := renumbered[name]; ok {
@@ -355,6 +454,9 @@ func cmdCheck(args []string) {
 		}
 		if l := takeListed(name); l != "" {
 			return findingExact(l) // nil when the spare listed name is an unclaimed one
+		}
+		if l := originListed(name); l != "" {
+			return findingExact(l)
 		}
 		return nil
 	}
@@ -426,6 +528,10 @@ func cmdCheck(args []string) {
 						undecided = append(undecided, o.Name+" ("+o.Status+"; listed as "+l+", renumbered)")
 						continue
 					}
+					if l := originListed(o.Name); l != "" && unclaimed[l] {
+						undecided = append(undecided, o.Name+" ("+o.Status+"; same origin as listed "+l+")")
+						continue
+					}
 				}
 				nObl++
 				if *writeClaims {
@@ -453,6 +559,12 @@ func cmdCheck(args []string) {
 			}
 		}
 		writeBaseLocals(*verif, upd)
+		cur := loadInline(*verif)
+		for k, v := range e.sizeDecisions {
+			cur[k] = v
+		}
+		data, _ := json.MarshalIndent(cur, "", " ")
+		os.WriteFile(filepath.Join(*verif, "claims", "inline.json"), data, 0o644)
 	}
 
 	// vacuity: assumptions of every unit must be satisfiable
